@@ -4,7 +4,10 @@
    usage: runner <cases> <results> [variant]
      variant A: hash = constant 0, cand = always, grow = always   (degenerate table)
      variant B: hash = length,     cand = equal,  grow = never    (default)
-   The results are proved (RodeoProofs.v) and checked (both variants are run) to be independent. *)
+   The results are proved (RodeoProofs.v) and checked (both variants are run) to be independent.
+   usage: runner <cases> <results> <variant> --emit-coq <file.v> <N>
+     same output, plus <file.v>: for the first N cases, the model calls made and the outputs obtained,
+     as Examples that Coq re-evaluates with vm_compute (tools/crosscheck.sh). *)
 
 module L = Stdlib.List
 open BinNums
@@ -172,6 +175,167 @@ let key_arg (t : string) : coq_N =
   if t <> "" && String.for_all (fun c -> c >= '0' && c <= '9') t then (try n_of_string t with _ -> usize_max)
   else failwith "bad key"
 
+(* ---------- cross-check (--emit-coq): the model calls of a case as Coq source ----------
+   Every call of the extracted Rodeo.step goes through do_step, which logs (op, out).  For the first
+   N cases the runner writes an Example stating that Coq's own evaluation (vm_compute) of Rodeo.run on
+   exactly these ops yields exactly these outs: for those cases neither the extraction nor the OCaml
+   compiler has to be trusted.  Printing only; tools/crosscheck.sh compiles the file. *)
+let case_log : (Rodeo.op * Rodeo.out) list ref = ref []   (* reversed *)
+let case_keycap : coq_N ref = ref N0
+let case_id : string ref = ref ""
+
+let rec int_of_nat (n : nat) : int = match n with O -> 0 | S m -> 1 + int_of_nat m
+let rec pos_bits (p : positive) : int = match p with Coq_xH -> 1 | Coq_xO q | Coq_xI q -> 1 + pos_bits q
+
+(* size caps that keep coqc fast: numbers < 2^62 (or usize_max), strings <= 64 bytes, slots < 1000 *)
+let cq_ok_n (n : coq_N) = match n with N0 -> true | Npos p -> pos_bits p <= 62 || BinNat.N.eqb n usize_max
+let cq_ok_nat (n : nat) = int_of_nat n < 1000
+let cq_ok_str (s : coq_N list) = L.length s <= 64 && L.for_all cq_ok_n s
+let cq_ok_strs l = L.for_all cq_ok_str l
+let cq_ok_iop (i : Rodeo.iop) = match i with Rodeo.INthBack n -> cq_ok_n n | Rodeo.INext | Rodeo.INextBack | Rodeo.ILen -> true
+let cq_ok_doc (d : Rodeo.doc) =
+  match d with
+  | Rodeo.DList l -> cq_ok_strs l
+  | Rodeo.DMap l -> L.for_all (fun (s, k) -> cq_ok_str s && cq_ok_n k) l
+let cq_ok_op (o : Rodeo.op) =
+  match o with
+  | Rodeo.Intern (i, s) | Rodeo.InternP (i, s) | Rodeo.Get (i, s) | Rodeo.Contains (i, s) -> cq_ok_nat i && cq_ok_str s
+  | Rodeo.InternStatic (i, a, s) | Rodeo.InternStaticP (i, a, s) -> cq_ok_nat i && cq_ok_n a && cq_ok_str s
+  | Rodeo.Resolve (i, k) | Rodeo.TryResolve (i, k) | Rodeo.ContainsKey (i, k) | Rodeo.SetLimit (i, k) -> cq_ok_nat i && cq_ok_n k
+  | Rodeo.Len i | Rodeo.IsEmpty i | Rodeo.Clear i | Rodeo.CurMem i | Rodeo.MaxMem i | Rodeo.Clone i | Rodeo.Drop i
+  | Rodeo.IntoReader i | Rodeo.IntoResolver i | Rodeo.Ser i -> cq_ok_nat i
+  | Rodeo.IterOp (i, p) | Rodeo.StringsOp (i, p) -> cq_ok_nat i && L.for_all cq_ok_iop p
+  | Rodeo.CloneFrom (i, j) | Rodeo.EqOp (i, j) -> cq_ok_nat i && cq_ok_nat j
+  | Rodeo.De (_, d) -> cq_ok_doc d
+  | Rodeo.FromIter (_, l) -> cq_ok_strs l
+  | Rodeo.Extend (i, l) -> cq_ok_nat i && cq_ok_strs l
+  | Rodeo.NewRodeo (c, m) | Rodeo.NewThreaded (c, m) -> cq_ok_n c && cq_ok_n m
+let cq_ok_item (it : Rodeo.item) =
+  match it with
+  | Rodeo.ItSome (i, s) -> cq_ok_n i && cq_ok_str s
+  | Rodeo.ItLen n -> cq_ok_n n
+  | Rodeo.ItNone | Rodeo.ItPanic -> true
+let cq_ok_out (o : Rodeo.out) =
+  match o with
+  | Rodeo.OKey n | Rodeo.ONum n | Rodeo.ONew n -> cq_ok_n n
+  | Rodeo.OStr s -> cq_ok_str s
+  | Rodeo.OItems l -> L.for_all cq_ok_item l
+  | Rodeo.ODoc d -> cq_ok_doc d
+  | Rodeo.OErr _ | Rodeo.OPanic | Rodeo.ONone | Rodeo.OBool _ | Rodeo.OUnit | Rodeo.ODeErr | Rodeo.OUnsupported
+  | Rodeo.OFault -> true
+
+(* printers to Coq source (read under Open Scope N_scope) *)
+let cq_sep = ";\n     "
+let cq_list ?(sep = "; ") f l = "[" ^ String.concat sep (L.map f l) ^ "]"
+let cq_n (n : coq_N) = if BinNat.N.eqb n usize_max then "usize_max" else string_of_n n
+let cq_nat (n : nat) = Printf.sprintf "%d%%nat" (int_of_nat n)
+let cq_bool (b : bool) = if b then "true" else "false"
+let cq_str (s : coq_N list) = cq_list cq_n s
+let cq_strs (l : coq_N list list) = cq_list ~sep:cq_sep cq_str l
+let cq_iop (i : Rodeo.iop) =
+  match i with
+  | Rodeo.INext -> "INext"
+  | Rodeo.INextBack -> "INextBack"
+  | Rodeo.INthBack n -> "INthBack " ^ cq_n n
+  | Rodeo.ILen -> "ILen"
+let cq_plan (p : Rodeo.iop list) = cq_list cq_iop p
+let cq_dkind (k : Rodeo.dkind) =
+  match k with
+  | Rodeo.KRodeo -> "KRodeo"
+  | Rodeo.KThreaded -> "KThreaded"
+  | Rodeo.KReader -> "KReader"
+  | Rodeo.KResolver -> "KResolver"
+let cq_doc (d : Rodeo.doc) =
+  match d with
+  | Rodeo.DList l -> "(DList " ^ cq_strs l ^ ")"
+  | Rodeo.DMap l -> "(DMap " ^ cq_list ~sep:cq_sep (fun (s, k) -> "(" ^ cq_str s ^ ", " ^ cq_n k ^ ")") l ^ ")"
+let cq_err (e : Base.err) =
+  match e with
+  | Base.MemoryLimitReached -> "MemoryLimitReached"
+  | Base.KeySpaceExhaustion -> "KeySpaceExhaustion"
+  | Base.FailedAllocation -> "FailedAllocation"
+let cq_op (o : Rodeo.op) =
+  let sp = String.concat " " in
+  match o with
+  | Rodeo.Intern (i, s) -> sp [ "Intern"; cq_nat i; cq_str s ]
+  | Rodeo.InternStatic (i, a, s) -> sp [ "InternStatic"; cq_nat i; cq_n a; cq_str s ]
+  | Rodeo.InternP (i, s) -> sp [ "InternP"; cq_nat i; cq_str s ]
+  | Rodeo.InternStaticP (i, a, s) -> sp [ "InternStaticP"; cq_nat i; cq_n a; cq_str s ]
+  | Rodeo.Get (i, s) -> sp [ "Get"; cq_nat i; cq_str s ]
+  | Rodeo.Contains (i, s) -> sp [ "Contains"; cq_nat i; cq_str s ]
+  | Rodeo.Resolve (i, k) -> sp [ "Resolve"; cq_nat i; cq_n k ]
+  | Rodeo.TryResolve (i, k) -> sp [ "TryResolve"; cq_nat i; cq_n k ]
+  | Rodeo.ContainsKey (i, k) -> sp [ "ContainsKey"; cq_nat i; cq_n k ]
+  | Rodeo.Len i -> sp [ "Len"; cq_nat i ]
+  | Rodeo.IsEmpty i -> sp [ "IsEmpty"; cq_nat i ]
+  | Rodeo.IterOp (i, p) -> sp [ "IterOp"; cq_nat i; cq_plan p ]
+  | Rodeo.StringsOp (i, p) -> sp [ "StringsOp"; cq_nat i; cq_plan p ]
+  | Rodeo.Clear i -> sp [ "Clear"; cq_nat i ]
+  | Rodeo.SetLimit (i, m) -> sp [ "SetLimit"; cq_nat i; cq_n m ]
+  | Rodeo.CurMem i -> sp [ "CurMem"; cq_nat i ]
+  | Rodeo.MaxMem i -> sp [ "MaxMem"; cq_nat i ]
+  | Rodeo.Clone i -> sp [ "Clone"; cq_nat i ]
+  | Rodeo.CloneFrom (i, j) -> sp [ "CloneFrom"; cq_nat i; cq_nat j ]
+  | Rodeo.Drop i -> sp [ "Drop"; cq_nat i ]
+  | Rodeo.IntoReader i -> sp [ "IntoReader"; cq_nat i ]
+  | Rodeo.IntoResolver i -> sp [ "IntoResolver"; cq_nat i ]
+  | Rodeo.Ser i -> sp [ "Ser"; cq_nat i ]
+  | Rodeo.De (k, d) -> sp [ "De"; cq_dkind k; cq_doc d ]
+  | Rodeo.EqOp (i, j) -> sp [ "EqOp"; cq_nat i; cq_nat j ]
+  | Rodeo.FromIter (t, l) -> sp [ "FromIter"; cq_bool t; cq_strs l ]
+  | Rodeo.Extend (i, l) -> sp [ "Extend"; cq_nat i; cq_strs l ]
+  | Rodeo.NewRodeo (c, m) -> sp [ "NewRodeo"; cq_n c; cq_n m ]
+  | Rodeo.NewThreaded (c, m) -> sp [ "NewThreaded"; cq_n c; cq_n m ]
+let cq_item (it : Rodeo.item) =
+  match it with
+  | Rodeo.ItSome (i, s) -> "ItSome " ^ cq_n i ^ " " ^ cq_str s
+  | Rodeo.ItNone -> "ItNone"
+  | Rodeo.ItLen n -> "ItLen " ^ cq_n n
+  | Rodeo.ItPanic -> "ItPanic"
+let cq_out (o : Rodeo.out) =
+  match o with
+  | Rodeo.OKey k -> "OKey " ^ cq_n k
+  | Rodeo.OErr e -> "OErr " ^ cq_err e
+  | Rodeo.OPanic -> "OPanic"
+  | Rodeo.ONone -> "ONone"
+  | Rodeo.OStr s -> "OStr " ^ cq_str s
+  | Rodeo.OBool b -> "OBool " ^ cq_bool b
+  | Rodeo.ONum n -> "ONum " ^ cq_n n
+  | Rodeo.OUnit -> "OUnit"
+  | Rodeo.OItems l -> "OItems " ^ cq_list ~sep:cq_sep cq_item l
+  | Rodeo.ODoc d -> "ODoc " ^ cq_doc d
+  | Rodeo.ONew n -> "ONew " ^ cq_n n
+  | Rodeo.ODeErr -> "ODeErr"
+  | Rodeo.OUnsupported -> "OUnsupported"
+  | Rodeo.OFault -> "OFault"
+
+let cq_header oc =
+  Printf.fprintf oc "(* generated by runner --emit-coq (variant %c): Coq re-evaluates the model calls of the runner *)\n" !variant;
+  output_string oc "From Lasso Require Import Base Arena Rodeo.\nOpen Scope N_scope.\n";
+  if !variant = 'A' then
+    output_string oc
+      "Definition h (_ : str) : N := 0.\nDefinition cand (_ _ : N) : bool := true.\nDefinition growf (_ : N) : bool := true.\n"
+  else
+    output_string oc
+      "Definition h (s : str) : N := N.of_nat (length s).\nDefinition cand : N -> N -> bool := N.eqb.\nDefinition growf (_ : N) : bool := false.\n";
+  output_string oc "(* ---- cases ---- *)\n"
+
+(* the logged case as an Example; false (nothing written) if it exceeds the size caps *)
+let cq_case oc (idx : int) : bool =
+  let log = L.rev !case_log in
+  let safe = String.map (fun c -> match c with 'a' .. 'z' | 'A' .. 'Z' | '0' .. '9' | '_' | '-' | '.' -> c | _ -> '?') !case_id in
+  if L.length log > 400 || not (cq_ok_n !case_keycap)
+     || not (L.for_all (fun (o, x) -> cq_ok_op o && cq_ok_out x) log)
+  then (Printf.fprintf oc "(* skipped case %s (#%d), %d model calls: over the size caps *)\n" safe idx (L.length log); false)
+  else begin
+    let blk f l = if l = [] then "[]" else "[\n  " ^ String.concat ";\n  " (L.map f l) ^ "\n  ]" in
+    Printf.fprintf oc "(* case %s, %d model calls *)\n" safe (L.length log);
+    Printf.fprintf oc "Example case_%d : snd (run h cand growf %s [] %s) =\n  %s.\n" idx (cq_n !case_keycap)
+      (blk (fun (o, _) -> cq_op o) log) (blk (fun (_, x) -> cq_out x) log);
+    output_string oc "Proof. vm_compute. reflexivity. Qed.\n";
+    true
+  end
+
 let mutating = [ "NR"; "NT"; "I"; "IS"; "IA"; "IP"; "ISP"; "CLR"; "LIM"; "CL"; "CF"; "DROP"; "RD"; "RS"; "DE"; "FI"; "EX" ]
 
 let starts_with p s = String.length s >= String.length p && String.sub s 0 (String.length p) = p
@@ -193,6 +357,7 @@ let run_case oc (line : string) =
       in
       let keycap = keycap_of (cfg "K") in
       let pool = parse_pool (cfg "P") in
+      case_log := []; case_keycap := keycap; case_id := id;
       let step w o = Rodeo.step hashf candf growf keycap w o in
       let world = ref ([] : Rodeo.world) in
       let unordered = Hashtbl.create 8 in
@@ -203,6 +368,7 @@ let run_case oc (line : string) =
       let do_step o =
         let w', out = step !world o in
         world := w';
+        case_log := (o, out) :: !case_log;
         out
       in
       L.iteri
@@ -403,13 +569,36 @@ let () =
   if Array.length Sys.argv > 1 && Sys.argv.(1) = "--keys" then (print_keys (); exit 0);
   let cases = Sys.argv.(1) and results = Sys.argv.(2) in
   if Array.length Sys.argv > 3 then variant := Sys.argv.(3).[0];
+  (* runner <cases> <results> <variant> --emit-coq <file.v> <N> *)
+  let emit =
+    if Array.length Sys.argv > 4 && Sys.argv.(4) = "--emit-coq" then begin
+      match (if Array.length Sys.argv = 7 then int_of_string_opt Sys.argv.(6) else None) with
+      | Some n -> Some (open_out Sys.argv.(5), n)
+      | None -> prerr_endline "usage: runner <cases> <results> <variant> --emit-coq <file.v> <N>"; exit 2
+    end
+    else None
+  in
+  (match emit with Some (vc, _) -> cq_header vc | None -> ());
+  let seen = ref 0 and emitted = ref 0 and skipped = ref 0 in
   let ic = open_in cases and oc = open_out results in
   (try
      while true do
        let line = input_line ic in
        let line = String.trim line in
-       if line <> "" && line.[0] <> '#' then run_case oc line
+       if line <> "" && line.[0] <> '#' then begin
+         run_case oc line;
+         match emit with
+         | Some (vc, n) when !seen < n ->
+             if cq_case vc !seen then incr emitted else incr skipped;
+             incr seen
+         | _ -> ()
+       end
      done
    with End_of_file -> ());
   close_in ic;
-  close_out oc
+  close_out oc;
+  match emit with
+  | Some (vc, _) ->
+      Printf.fprintf vc "(* crosscheck: emitted=%d skipped=%d *)\n" !emitted !skipped;
+      close_out vc
+  | None -> ()
